@@ -17,6 +17,16 @@
 (* A case with seq (history) has exactly two calls: the call on its own and  *)
 (* the same call after unrelated calls that used ANOTHER key with the SAME   *)
 (* key id; law: same case, same result class whatever preceded it.           *)
+(* A live case (conc, keep) has many calls, made by conc goroutines on one   *)
+(* shared instance; its call events carry                                    *)
+(*         w, i    goroutine and iteration                                   *)
+(*         same    "yes"/"no": class and bytes of the result are those the   *)
+(*                 same call gave when it was made alone                     *)
+(*         kept    "yes"/"no": the slices returned by this goroutine's       *)
+(*                 previous keep calls are still bit-for-bit what they were  *)
+(*                 (checked after this call and after a failing call)        *)
+(* and wsum {w, n, deviating} closes a goroutine (calls made / not recorded  *)
+(* one by one are all as required iff deviating = 0).                        *)
 EXTENDS CryptoDispatch
 
 Bad(why) == [bad |-> TRUE, why |-> why]
@@ -26,6 +36,7 @@ CaseOf(e) ==
   LET b == C(e.fn, e.alg, e.keyKind, e.keyBits, e.nonceLen, e.tagLen, e.inLen, e.aadLen, e.mut) IN
   IF e.mut = "pad" THEN b @@ [padV |-> e.padV, padTail |-> e.padTail]
   ELSE IF "seq" \in DOMAIN e THEN b @@ [seq |-> e.seq]
+  ELSE IF "conc" \in DOMAIN e THEN b @@ [conc |-> e.conc, keep |-> e.keep]
   ELSE b
 
 CReset(e) ==
@@ -47,7 +58,15 @@ Why(cs, o) ==
 
 CCall(c, e) ==
   LET cs == c.cs flip == cs.mut \in Flips seq == IsSeq(cs) res == <<e.outcome, e.rt, e.ref>> IN
-  IF seq /\ c.calls = 1 /\ res # c.first THEN Bad("history-dependent")
+  IF IsLive(cs) THEN
+       (IF e.same = "no" THEN Bad(IF cs.conc > 1 THEN "concurrency-dependent" ELSE "history-dependent")
+        ELSE IF e.kept = "no" THEN Bad("result-overwritten")
+        ELSE IF e.outcome \notin Allowed(cs) THEN Bad(Why(cs, e.outcome))
+        ELSE IF e.outcome = "ok" /\ e.rt = "no" THEN Bad("roundtrip-failed")
+        ELSE IF e.ref = "no" THEN Bad("reference-disagreement")
+        ELSE IF e.w < 0 \/ e.w >= cs.conc THEN Bad("harness: goroutine index out of range")
+        ELSE [c EXCEPT !.calls = @ + 1])
+  ELSE IF seq /\ c.calls = 1 /\ res # c.first THEN Bad("history-dependent")
   ELSE IF e.outcome \notin Allowed(cs) THEN Bad(Why(cs, e.outcome))
   ELSE IF e.outcome = "ok" /\ e.rt = "no" THEN Bad("roundtrip-failed")
   ELSE IF e.ref = "no" THEN Bad("reference-disagreement")
@@ -57,9 +76,16 @@ CCall(c, e) ==
   ELSE [c EXCEPT !.calls = @ + 1, !.last = e.idx, !.distinct = IF e.idx > c.last THEN @ + 1 ELSE @,
                  !.first = IF c.calls = 0 THEN res ELSE @]
 
+CWsum(c, e) ==
+  IF ~IsLive(c.cs) THEN Bad("harness: wsum outside a live case")
+  ELSE IF e.deviating # 0 THEN Bad(IF c.cs.conc > 1 THEN "concurrency-dependent" ELSE "history-dependent")
+  ELSE IF e.n < 1 THEN Bad("harness: goroutine made no call")
+  ELSE [c EXCEPT !.distinct = @ + 1]
+
 CEnd(c) ==
   IF c.calls = 0 THEN Bad("harness: case not executed")
   ELSE IF IsSeq(c.cs) /\ c.calls # 2 THEN Bad("harness: history case needs two calls")
+  ELSE IF IsLive(c.cs) /\ c.distinct # c.cs.conc THEN Bad("harness: a goroutine did not report")
   ELSE IF c.cs.mut \in Flips /\ c.full /\ c.distinct # c.compLen THEN Bad("harness: byte positions missing")
   ELSE c
 
@@ -77,5 +103,6 @@ CNext(c, e) ==
   IF e.ev = "reset" THEN CReset(e)
   ELSE IF IsBad(c) THEN c
   ELSE CASE e.ev = "call" -> CCall(c, e)
+         [] e.ev = "wsum" -> CWsum(c, e)
          [] e.ev = "end"  -> CEnd(c)
 =============================================================================
